@@ -18,6 +18,10 @@ OBLIGATIONS = [
        bound='rectangular 2x3 and 3x2 lattices at rotation 0 and 90 degrees; regular lattice with v1 along y and v2 along x at rotation 0; pitches -6..6, origin -20..20; integer-exact model',
        variants=[dict(KIND=1, COLS=c, ROWS=r, ROT90=z) for (c, r) in ((2, 3), (3, 2)) for z in (0, 1)] + [dict(KIND=2, COLS=2, ROWS=3, ROT90=0), dict(KIND=2, COLS=3, ROWS=1, ROT90=0)],
        unwind=30, timeout=400, mem_gb=10, wrap_files=True, real_stub_syms=['cos', 'sin', 'sincos'], nvec=10),
+    Ob('record_length_unsigned', 'C03/bigrecord.c', ['_ZN5gdstk17gdsii_read_recordEP8_IO_FILEPhRm'],
+       what='gdsii_read_record with the 65537-byte buffer of the gdstk readers: every complete record of 4..65533 bytes (unsigned 16-bit big-endian length) is accepted, its length reported and the stream left exactly behind it; a stream that ends inside the record, or a length < 4, is an error',
+       bound='stream length 0..65599 and all four header bytes symbolic; payload contents not modelled (bulk read)',
+       variants=[{}], unwind=6, timeout=300, wrap_files=True, nvec=60),
 ]
 BOUNDS = 'one element per file; coordinates within +-2^20 (reader) ; concrete MAG/ANGLE values; AREF export on axis-aligned lattices at 0 / 90 degrees'
 OUTSIDE = 'symbolic MAG / ANGLE values in whole-file queries (their real8 codec is C19); rotations other than multiples of 90 degrees in AREF export (normalisation inexact); records longer than 92 bytes (a reader that mis-handles record lengths >= 32768 is not distinguished); Raith records; RobustPath / non-simple path export (outlines)'
